@@ -155,8 +155,11 @@ where
                 //   u = w + v  =>  [wmin + vmin .. wmax + vmax]
                 //   v = u - w  =>  [umin - wmax .. umax - wmin]
                 //
-                // The constraint is not dropped until all variables converge into numbers.
+                // The constraint is not dropped until all variables converge into numbers. It
+                // goes back to the store first, so that it is re-run if the narrowing below
+                // binds one of its operands.
                 Ok(state
+                    .with_constraint(self.clone())
                     .process_domain(
                         &wwalk,
                         Rc::new(FiniteDomain::from(
@@ -174,8 +177,7 @@ where
                         Rc::new(FiniteDomain::from(
                             umin.saturating_sub(wmax)..=umax.saturating_sub(wmin),
                         )),
-                    )?
-                    .with_constraint(self))
+                    )?)
             }
             // If all operators do not yet have domains, then keep the constraint until it can
             // be used to constrain some domains.
